@@ -274,17 +274,21 @@ def rule_ag_stage(cx, rep, port):
         return inline_single_defs(e, scope, depth=3, any_value=True)
     # stage 1
     ctor = [n for s_ in s1 for n in ast.walk(s_) if isinstance(n, ast.Call) and dotted(n.func) == 'AggregateWriter']
-    wrap = [n for n in s1 if isinstance(n, ast.Assign) and (dotted(n.targets[0]) or '').endswith('.writer') and isinstance(res(n.value), ast.Call) and dotted(res(n.value).func) == 'AggregateWriter']
+    def _val(n):
+        from .. import pathsem
+        v = pathsem.subst(n.value, _block_env(s1, n))
+        return v if isinstance(v, ast.Call) else res(n.value)
+    wrap = [n for n in s1 if isinstance(n, ast.Assign) and (dotted(n.targets[0]) or '').endswith('.writer') and isinstance(_val(n), ast.Call) and dotted(_val(n).func) == 'AggregateWriter']
     rep.decide(len(wrap) == 1 and len(ctor) == 1, 'stage 1 writer', wrap[0] if wrap else iff, 'AggregateWriter is installed once, in stage 1', 'AggregateWriter is not installed exactly once in stage 1')
     if ctor:
         cst = ctor[0]
         while not isinstance(cst, ast.stmt):
             cst = cst.parent
-        wrap_pos = cst.lineno
+        wrap_pos = cst.pos
     else:
         wrap_pos = None
     guard = [n for n in s1 if isinstance(n, ast.If) and isinstance(n.body[-1], ast.Raise) and 'writer' in node_text(n.test)]
-    okg = len(guard) == 1 and 'RbqlParsingError' in node_text(guard[0].body[-1]) and (wrap_pos is None or guard[0].lineno < wrap_pos)
+    okg = len(guard) == 1 and 'RbqlParsingError' in node_text(guard[0].body[-1]) and (wrap_pos is None or guard[0].pos < wrap_pos)
     rep.decide(okg, 'stage 1 guard', guard[0] if guard else iff, 'sorting/dedup writers are rejected with a parsing error before the AggregateWriter is installed', 'ORDER BY / DISTINCT in an aggregate query is not rejected with a parsing error before aggregation starts')
     loops = [n for n in s1 if isinstance(n, (ast.For, ast.While))]
     if len(loops) != 1:
@@ -723,6 +727,81 @@ def rule_jn_joiners(cx, rep, port):
             rep.decide(oc == want, key, g, good, bad + ' (0 / 1 / 2 matches -> {})'.format([sorted(oc[n_]) for n_ in (0, 1, 2)]))
 
 
+def _jn_key_functions(cx, rep, port, p, mod, ms):
+    from .. import absexec as AX
+    for mname in ('get_single_key', 'get_multi_key'):
+        m = ms.get(mname)
+        if m is None:
+            rep.undecided(mname + ' NR key', ms['build'], 'key function {} not found'.format(mname))
+            continue
+        params = [a.arg for a in m.args.args]
+        cases = [(-1, 'NR'), (0, 'F0'), (1, 'F1'), (2, 'ERR'), (5, 'ERR')] if mname == 'get_single_key' else [([-1, 1], ['NR', 'F1']), ([1, 0], ['F1', 'F0']), ([0, 2], 'ERR'), ([-1, -1], ['NR', 'NR']), ([3, 0], 'ERR')]
+        bad_nr, bad_missing, bad_other, und = [], [], [], []
+        for idx, want in cases:
+            selfv = AX.Abs('Self')
+            toks = {'NR': AX.Abs('NR'), 'F0': AX.Abs('F0'), 'F1': AX.Abs('F1')}
+            fields = [toks['F0'], toks['F1']]
+
+            def on_attr(ex, node, obj, attr, idx=idx, toks=toks):
+                if obj is selfv and attr == 'nr':
+                    return toks['NR']
+                if obj is selfv and attr == 'key_index' and not isinstance(idx, list):
+                    return idx
+                if obj is selfv and attr == 'key_indices' and isinstance(idx, list):
+                    return list(idx)
+                return AX.NOT_HANDLED
+
+            def on_call(ex, node, fname, recv, args):
+                if fname.split('.')[-1].endswith('Error') and recv is None or (fname.endswith('Error')):
+                    return AX.Abs(fname.split('.')[-1])
+                if fname == 'JSON.stringify' and len(args) == 1 and isinstance(args[0], list):
+                    return AX.Abs('Json', items=tuple(args[0]))
+                return AX.NOT_HANDLED
+            ex = AX.Explorer(p, mod, on_call=on_call, on_attr=on_attr, max_choices=2)
+            # parameters: (self,) [nr,] fields
+            args = []
+            for prm in params:
+                if prm in ('self', 'this'):
+                    args.append(selfv)
+                elif prm == 'nr':
+                    args.append(toks['NR'])
+                else:
+                    args.append(list(fields))
+            try:
+                runs, cut = ex.explore(m, args, cls='HashJoinMap')
+            except Undecided as e_:
+                und.append(str(e_))
+                continue
+            if len(runs) != 1:
+                und.append('{} outcomes for key index {}'.format(len(runs), idx))
+                continue
+            kind, val, node = runs[0].outcome
+            if want == 'ERR':
+                if not (kind == 'raise' and isinstance(val, AX.Abs) and val.kind == 'RbqlRuntimeError'):
+                    bad_missing.append('for key index {} and a B record of 2 fields the outcome is {} {!r}'.format(idx, kind, val))
+                continue
+            if kind != 'return':
+                bad_other.append('for key index {} and a B record of 2 fields an error is raised'.format(idx))
+                continue
+            if isinstance(want, list):
+                items = list(val) if isinstance(val, (list, tuple)) else (list(val.props['items']) if isinstance(val, AX.Abs) and val.kind == 'Json' else None)
+                if items is None:
+                    und.append('multi-key value {!r} not recognised'.format(val))
+                    continue
+                ok = len(items) == len(want) and all(a is toks[w] for a, w in zip(items, want))
+                got = [getattr(x, 'kind', repr(x)) for x in items]
+            else:
+                ok = val is toks[want]
+                got = getattr(val, 'kind', repr(val))
+            if not ok:
+                (bad_nr if (-1 in (idx if isinstance(idx, list) else [idx])) else bad_other).append('for key index {} the key is {} instead of {}'.format(idx, got, want))
+        if und and not (bad_nr or bad_missing or bad_other):
+            rep.undecided(mname + ' NR key', m, und[0])
+            continue
+        rep.decide(not bad_missing, mname + ' missing field', m, 'a B record without the key field raises the runtime error', 'a B record that lacks the key field does not raise the runtime error ({})'.format('; '.join(bad_missing[:2])))
+        rep.decide(not bad_nr and not bad_other, mname + ' NR key', m, 'index -1 selects the B record number, otherwise the field', 'the bNR key component is not "record number if index == -1 else field": {}'.format('; '.join((bad_nr + bad_other)[:2])))
+
+
 def rule_jn_build(cx, rep, port):
     p = cx.port(port)
     mod = cx.engine_mod(port)
@@ -734,7 +813,7 @@ def rule_jn_build(cx, rep, port):
     incs = [n for n in walk_no_nested(b) if isinstance(n, ast.AugAssign) and dotted(n.target) == nr and isinstance(n.value, ast.Constant) and n.value.value == 1]
     rep.decide(len(incs) == 1, 'B record number', incs[0] if incs else b, 'bNR counts B records from 1', 'B records are not numbered 1, 2, ... in read order')
     eof = [n for n in walk_no_nested(b) if isinstance(n, ast.If) and isinstance(n.test, ast.Compare) and is_none(n.test.comparators[0]) and isinstance(n.body[0], ast.Break)]
-    rep.decide(len(eof) == 1 and (not incs or eof[0].lineno < incs[0].lineno), 'B end of input', eof[0] if eof else b, 'stops at the first None record, before counting it', 'B reading does not stop at the first None record before counting')
+    rep.decide(len(eof) == 1 and (not incs or eof[0].pos < incs[0].pos), 'B end of input', eof[0] if eof else b, 'stops at the first None record, before counting it', 'B reading does not stop at the first None record before counting')
     recv = [dotted(n.targets[0]) for n in walk_no_nested(b) if isinstance(n, ast.Assign) and isinstance(n.value, ast.Call) and (call_name(n.value) or '').endswith('record_iterator.get_record')]
     rec = recv[0] if recv else 'fields'
     nfv = [dotted(n.targets[0]) for n in walk_no_nested(b) if isinstance(n, ast.Assign) and node_text(n.value) == 'len({})'.format(rec)]
@@ -765,14 +844,9 @@ def rule_jn_build(cx, rep, port):
             rep.undecided('max width start', m0[0], 'initial max_record_len is not a constant')
     nf = [n for n in walk_no_nested(b) if isinstance(n, ast.Assign) and is_name(n.targets[0], nfn)]
     rep.decide(len(nf) == 1 and node_text(nf[0].value) == 'len({})'.format(rec), 'bNF', nf[0] if nf else b, 'bNF = len(record)', 'bNF is not the field count of the B record')
-    # key functions: index -1 -> record number ; missing field -> runtime error
-    for mname in ('get_single_key', 'get_multi_key'):
-        m = ms[mname]
-        rs = [r for r in walk_no_nested(m) if isinstance(r, ast.Raise)]
-        rep.decide(len(rs) == 1 and 'RbqlRuntimeError' in node_text(rs[0]) and isinstance(rs[0].parent, ast.If) and isinstance(rs[0].parent.test, ast.Compare) and isinstance(rs[0].parent.test.ops[0], ast.GtE), mname + ' missing field', rs[0] if rs else m, 'a B record without the key field is a runtime error', 'a B record that lacks the key field does not raise the runtime error (`{}`)'.format(node_text(rs[0].parent.test) if rs and isinstance(rs[0].parent, ast.If) else '?'))
-        ife = [n for n in walk_no_nested(m) if isinstance(n, ast.IfExp)]
-        okk = len(ife) == 1 and isinstance(ife[0].test, ast.Compare) and isinstance(ife[0].test.comparators[0], ast.Constant) and ife[0].test.comparators[0].value == -1 and isinstance(ife[0].test.ops[0], ast.Eq) and dotted(ife[0].body) in ('nr', 'self.nr') and isinstance(ife[0].orelse, ast.Subscript)
-        rep.decide(okk, mname + ' NR key', ife[0] if ife else m, 'index -1 selects the B record number, otherwise the field', 'the bNR key component is not "record number if index == -1 else field"')
+    # key functions: index -1 -> record number ; missing field -> runtime error.  Decided on the abstract outcomes of the two key
+    # functions for a B record of two fields F0, F1 and the index classes {-1, inside, outside}
+    _jn_key_functions(cx, rep, port, p, mod, ms)
     # key representation agrees with the lhs expression built by the parser
     init = ms['__init__']
     sel = [n for n in walk_no_nested(init) if isinstance(n, ast.If) and 'len(key_indices) == 1' in node_text(n.test)]
@@ -790,6 +864,150 @@ def rule_jn_build(cx, rep, port):
     gj = ms['get_join_records']
     rets = [r for r in walk_no_nested(gj) if isinstance(r, ast.Return)]
     rep.decide(all('hash_map' in node_text(r.value) or node_text(r.value) in ('result', '[]') for r in rets), 'lookup', gj, 'returns the bucket of the key (empty when absent)', 'get_join_records does not return the bucket of its key')
+
+
+def _pa_join_resolution(rep, rj):
+    """what one iteration of the pair loop appends, per path: the A-side expression and the B-side index, and which of the two written variables each comes from"""
+    from .. import pathsem as PS
+    from ..idioms import membership, _minus_one
+    params = [a.arg for a in rj.args.args]
+    loops = [n for n in rj.body if isinstance(n, ast.For)]
+    if len(loops) != 1 or len(params) < 3:
+        rep.undecided('variable resolution', rj, 'expected one loop over the key pairs')
+        return
+    loop = loops[0]
+    a_map, b_map = params[0], params[1]
+    tgt = loop.target
+    if isinstance(tgt, (ast.Tuple, ast.List)) and len(tgt.elts) == 2 and all(isinstance(e, ast.Name) for e in tgt.elts):
+        vnames, pairvar = {tgt.elts[0].id: 1, tgt.elts[1].id: 2}, None
+    elif isinstance(tgt, ast.Name):
+        vnames, pairvar = {}, tgt.id
+    else:
+        rep.undecided('variable resolution', loop, 'unrecognised loop target')
+        return
+
+    def which(e):
+        """the written variables (1 = first of the pair, 2 = second) an expression is computed from"""
+        out = set()
+        for x in ast.walk(e):
+            if isinstance(x, ast.Name) and x.id in vnames:
+                out.add(vnames[x.id])
+            if pairvar and isinstance(x, ast.Subscript) and is_name(x.value, pairvar) and isinstance(x.slice, ast.Constant) and x.slice.value in (0, 1):
+                out.add(x.slice.value + 1)
+        return out
+
+    def names(e):
+        return {x.id for x in ast.walk(e) if isinstance(x, ast.Name)}
+    ps = PS.paths_of_block(loop.body)
+    if ps is None:
+        rep.undecided('variable resolution', loop, 'loop body not summarised')
+        return
+    falls = [q for q in ps if q.kind in ('fall', 'continue')]
+    if not falls:
+        rep.undecided('variable resolution', loop, 'no completing path through the pair loop')
+        return
+    rets = [r for r in walk_no_nested(rj) if isinstance(r, ast.Return) and isinstance(r.value, (ast.Tuple, ast.List)) and len(r.value.elts) == 2 and all(isinstance(e, ast.Name) for e in r.value.elts)]
+    if len(rets) != 1:
+        rep.undecided('variable resolution', rj, 'expected `return (A expressions, B indices)`')
+        return
+    a_list, b_list = rets[0].value.elts[0].id, rets[0].value.elts[1].id
+    bad_res, bad_swap, bad_nr, bad_expr, und = [], [], [], [], []
+    seen_sw = {True: set(), False: set()}
+    n_nr = 0
+    for q in falls:
+        app = {}
+        for c in q.calls:
+            if isinstance(c, ast.Call) and isinstance(c.func, ast.Attribute) and c.func.attr in ('append', 'push') and isinstance(c.func.value, ast.Name) and len(c.args) == 1:
+                app.setdefault(c.func.value.id, []).append(c.args[0])
+        if len(app.get(a_list, [])) != 1 or len(app.get(b_list, [])) != 1:
+            und.append('a completing path does not append exactly one A expression and one B index')
+            continue
+        ea, eb = app[a_list][0], app[b_list][0]
+        ats = PS.atoms(q.conds)
+        mem = [(m, pol) for (m, pol) in ((membership(t), pol) for t, pol in ats) if m is not None]
+        # record-number spellings tested true on this path
+        nr_a = [which(k) for (k, box, pos), pol in mem if pos == pol and isinstance(box, (ast.List, ast.Tuple, ast.Set)) and any(isinstance(x, ast.Constant) and x.value == 'a.NR' for x in box.elts)]
+        nr_b = [which(k) for (k, box, pos), pol in mem if pos == pol and isinstance(box, (ast.List, ast.Tuple, ast.Set)) and any(isinstance(x, ast.Constant) and x.value == 'b.NR' for x in box.elts)]
+        # A side
+        a_is_nr = isinstance(ea, ast.Constant) and ea.value == 'NR'
+        if a_is_nr:
+            ua = nr_a[0] if nr_a else which(ast.Tuple(elts=[t for t, pol in ats if a_map in names(t) and '.index' in ast.unparse(t)], ctx=ast.Load()))
+            if nr_a:
+                n_nr += 1
+        else:
+            ua = which(ea)
+            ta = ast.unparse(ea)
+            if nr_a:
+                bad_nr.append('an A-side record-number key is not resolved to NR')
+            if 'safe_join_get(record_a, ' not in ta:
+                bad_expr.append(ta[:80])
+            if a_map not in names(ea) or b_map in names(ea):
+                bad_res.append('the A-side key `{}` is not looked up in {}'.format(ta[:80], a_map))
+        # B side
+        if _minus_one(eb):
+            ub = nr_b[0] if nr_b else set()
+            if not nr_b:
+                bad_nr.append('index -1 appended for a B key that is not a record-number spelling')
+            else:
+                n_nr += 1
+        else:
+            ub = which(eb)
+            if nr_b:
+                bad_nr.append('a B-side record-number key is not resolved to index -1')
+            if b_map not in names(eb) or a_map in names(eb):
+                bad_res.append('the B-side key `{}` is not looked up in {}'.format(ast.unparse(eb)[:80], b_map))
+        if len(ua) != 1 or len(ub) != 1 or ua == ub:
+            if len(ua) == 1 and len(ub) == 1:
+                bad_res.append('both sides of a pair are resolved from the same written variable')
+            else:
+                und.append('could not tell which written variable each side comes from (A {}, B {})'.format(sorted(ua), sorted(ub)))
+            continue
+        q.pa_sides = (next(iter(ua)), next(iter(ub)))
+    # model check over the ways a pair can be written: (where the first variable lives, where the second lives) -> which one must become the A key
+    SCEN = [('b-field == a-field', {1: 'B', 2: 'A'}, 2), ('a-field == b-field', {1: 'A', 2: 'B'}, 1), ('bNR == a-field', {1: 'bNR', 2: 'A'}, 2),
+            ('aNR == b-field', {1: 'aNR', 2: 'B'}, 1), ('a-field == bNR', {1: 'A', 2: 'bNR'}, 1), ('b-field == aNR (not supported: must be rejected or resolved with aNR on the A side)', {1: 'B', 2: 'aNR'}, None)]
+
+    def box_kind(box):
+        if is_name(box, a_map):
+            return 'A'
+        if is_name(box, b_map):
+            return 'B'
+        if isinstance(box, (ast.List, ast.Tuple, ast.Set)):
+            vals = [x.value for x in box.elts if isinstance(x, ast.Constant)]
+            if 'a.NR' in vals:
+                return 'aNR'
+            if 'b.NR' in vals:
+                return 'bNR'
+        return None
+    for title, where, want in SCEN:
+        def leaf(e):
+            m = membership(e)
+            if m is None:
+                return None
+            k, box, pos = m
+            w, bk = which(k), box_kind(box)
+            if len(w) != 1 or bk is None:
+                return None
+            return (where[next(iter(w))] == bk) == pos
+        live = [q for q in ps if PS.consistent(q, leaf)]
+        for q in live:
+            if q.kind == 'raise':
+                if want is not None:
+                    bad_swap.append('`{}` is rejected ({})'.format(title, node_text(q.value, 70)))
+            elif hasattr(q, 'pa_sides'):
+                if want is not None and q.pa_sides[0] != want:
+                    bad_swap.append('`{}`: the {} written variable is taken as the A key'.format(title, 'first' if q.pa_sides[0] == 1 else 'second'))
+                if want is None and q.pa_sides[0] != 2:
+                    bad_swap.append('`{}`: accepted with the B field as the A key'.format(title))
+        if not live:
+            und.append('no path for `{}`'.format(title))
+    if und and not (bad_res or bad_swap or bad_nr or bad_expr):
+        rep.undecided('variable resolution', loop, und[0])
+        return
+    rep.decide(not bad_swap, 'operand swap', loop, 'a pair written b-side first is swapped ({} completing paths)'.format(len(falls)), 'a key pair written with the B variable first is not swapped to (A, B): {}'.format('; '.join(sorted(set(bad_swap)))))
+    rep.decide(not bad_nr and n_nr >= 2, 'NR index', loop, 'record-number keys resolve to NR / index -1 on both sides', 'record-number keys do not resolve to index -1 on both sides: {}'.format('; '.join(sorted(set(bad_nr))) or 'no record-number path'))
+    rep.decide(not bad_expr, 'A-side key expression', loop, 'NR or safe_join_get(record_a, index)', 'the A-side key expression is not "NR if index == -1 else safe_join_get(record_a, index)": {}'.format('; '.join(sorted(set(bad_expr)))))
+    rep.decide(not bad_res, 'variable resolution', loop, 'A variable resolved in the input map, B variable in the join map', 'join variables are not resolved in their own tables\' variable maps: {}'.format('; '.join(sorted(set(bad_res)))))
 
 
 def rule_pa_join(cx, rep, port):
@@ -821,17 +1039,7 @@ def rule_pa_join(cx, rep, port):
     rep.decide(len(andp) == 1 and andp[0][1], 'AND keyword', andp[0][2] if andp else fd, 'AND is matched case-insensitively', 'the AND between key pairs is not matched case-insensitively')
     # resolve_join_variables
     rj = p.func(mod, 'resolve_join_variables')
-    swaps = [n for n in walk_no_nested(rj) if isinstance(n, ast.If) and isinstance(n.body[0], ast.Assign) and isinstance(n.body[0].targets[0], ast.Tuple) and isinstance(n.body[0].value, (ast.Tuple, ast.List)) and [dotted(e) for e in n.body[0].targets[0].elts] == list(reversed([dotted(e) for e in n.body[0].value.elts]))]
-    oks = len(swaps) == 1 and 'input_variables_map' in node_text(swaps[0].test) and 'join_var_2' in node_text(swaps[0].test)
-    rep.decide(oks, 'operand swap', swaps[0] if swaps else rj, 'a pair written b-side first is swapped', 'a key pair written with the B variable first is not swapped to (A, B)')
     lists = [n for n in ast.walk(rj) if isinstance(n, ast.List) and n.elts and all(isinstance(e, ast.Constant) and isinstance(e.value, str) and 'NR' in e.value for e in n.elts)]
     vals = sorted(tuple(sorted(e.value for e in l.elts)) for l in lists)
     rep.decide(vals == [('NR', 'a.NR', 'aNR'), ('b.NR', 'bNR')], 'NR keys', lists[0] if lists else rj, 'NR/a.NR/aNR on the A side, bNR/b.NR on the B side', 'record-number key spellings are {}'.format(vals))
-    m1 = [n for n in walk_no_nested(rj) if isinstance(n, ast.Assign) and isinstance(n.value, ast.Constant) and n.value.value == -1]
-    rep.decide(len(m1) == 2, 'NR index', m1[0] if m1 else rj, 'record-number keys resolve to index -1 on both sides', 'record-number keys do not resolve to index -1 on both sides')
-    lhs = [n for n in walk_no_nested(rj) if isinstance(n, ast.Assign) and is_name(n.targets[0], 'lhs_join_var_expression')]
-    okl = len(lhs) == 1 and isinstance(lhs[0].value, ast.IfExp) and 'lhs_key_index == -1' in node_text(lhs[0].value.test) and isinstance(lhs[0].value.body, ast.Constant) and lhs[0].value.body.value == 'NR' and 'safe_join_get(record_a, ' in node_text(lhs[0].value.orelse)
-    rep.decide(okl, 'A-side key expression', lhs[0] if lhs else rj, 'NR or safe_join_get(record_a, index)', 'the A-side key expression is not "NR if index == -1 else safe_join_get(record_a, index)"')
-    idx = [n for n in walk_no_nested(rj) if isinstance(n, ast.Assign) and '.index' in node_text(n.value) and ('get(' in node_text(n.value) or '[' in node_text(n.value))]
-    okm = len(idx) == 2 and 'input_variables_map' in node_text(idx[0].value) and 'join_var_1' in node_text(idx[0].value) and 'join_variables_map' in node_text(idx[1].value) and 'join_var_2' in node_text(idx[1].value)
-    rep.decide(okm, 'variable resolution', idx[0] if idx else rj, 'A variable resolved in the input map, B variable in the join map', 'join variables are not resolved in their own tables\' variable maps')
+    _pa_join_resolution(rep, rj)
